@@ -66,6 +66,13 @@ def m_type(I, args, kw):
 
 
 def m_len(I, args, kw):
+    if isinstance(args[0], Ref):
+        from .values import RegionListCell
+        c0 = I.path.cell(args[0])
+        if isinstance(c0, RegionListCell):
+            return mk("int", I.path.cell(c0.region).n)
+        if isinstance(c0, MapCell) and c0.n is not None:
+            return mk("int", c0.n)
     (v,) = args
     if isinstance(v, OldView):
         cell = I.old_heap[v.ref.addr]
@@ -231,6 +238,18 @@ def m_dict(I, args, kw):
     return I.path.alloc(DictCell(d))
 
 
+def _int_of_text(I, v):
+    """int(<symbolic text>[, base]) where the contract does not speak about the value: ValueError, or some integer - and a
+    text that converts is not empty and contains neither '<' nor '>' (no integer literal of any base does)."""
+    if I.path.decide(z3.Bool(I.path.fresh_name("int_of_text_fails"))):
+        raise PyRaise(ExcV(ValueError, ("invalid literal for int()",)))
+    arr, n, _ = seqops.as_array(v)
+    i = z3.Int(I.path.fresh_name("c"))
+    I.path.assume(to_term(n, "int") >= 1)
+    I.path.assume(z3.ForAll([i], z3.Implies(z3.And(i >= 0, i < to_term(n, "int")), z3.And(z3.Select(arr, i) != 0x3C, z3.Select(arr, i) != 0x3E))))
+    return Sym("int", z3.Int(I.path.fresh_name("int_of_text")))
+
+
 def m_int(I, args, kw):
     if not args:
         return 0
@@ -242,6 +261,8 @@ def m_int(I, args, kw):
                 return int(v, base)
             except ValueError as exc:
                 raise PyRaise(ExcV(ValueError, exc.args))
+        if getattr(I, "allow_text_conversions", False) and isinstance(v, SeqV) and v.kind in ("str", "bytes"):
+            return _int_of_text(I, v)
         raise Unsupported("int(symbolic, base)")
     if isinstance(v, Sym):
         if v.kind == "int":
@@ -262,6 +283,10 @@ def m_int(I, args, kw):
                     return int(p)
                 except ValueError as exc:
                     raise PyRaise(ExcV(ValueError, exc.args))
+            if getattr(I, "allow_text_conversions", False):
+                # contracts that do not speak about the VALUE read from a text (C15 token readers) opt in to the
+                # over-approximation: the conversion either raises ValueError or yields some integer
+                return _int_of_text(I, v)
             raise Unsupported("int(symbolic text)")
         raise _type_error("int() argument")
     if isinstance(v, Ref):
@@ -300,6 +325,15 @@ def m_float(I, args, kw):
                     return float(p)
                 except ValueError as exc:
                     raise PyRaise(ExcV(ValueError, exc.args))
+            if getattr(I, "allow_text_conversions", False):
+                # as _int_of_text: ValueError, or some float; a text that converts contains neither '<' nor '>'
+                if I.path.decide(z3.Bool(I.path.fresh_name("float_of_text_fails"))):
+                    raise PyRaise(ExcV(ValueError, ("could not convert string to float",)))
+                arr, n, _ = seqops.as_array(v)
+                i = z3.Int(I.path.fresh_name("c"))
+                I.path.assume(to_term(n, "int") >= 1)
+                I.path.assume(z3.ForAll([i], z3.Implies(z3.And(i >= 0, i < to_term(n, "int")), z3.And(z3.Select(arr, i) != 0x3C, z3.Select(arr, i) != 0x3E))))
+                return Sym("float", z3.FP(I.path.fresh_name("float_of_text"), sort_of("float")))
             raise Unsupported("float(symbolic text)")
         raise _type_error("float() argument")
     if isinstance(v, Ref):
@@ -697,6 +731,15 @@ def call_model_method(I, tag, self_val, args, kw):
         return dict_method(I, self_val, name, args, kw)
     if fam == "str":
         return str_method(I, self_val, name, args, kw)
+    if fam == "int" and name == "to_bytes":
+        length = args[0] if args else kw.get("length", 1)
+        order = args[1] if len(args) > 1 else kw.get("byteorder", "big")
+        if length != 1 or isinstance(order, (Sym, SeqV)) or kw.get("signed"):
+            raise Unsupported("int.to_bytes other than one unsigned byte")
+        t = to_term(self_val, "int")
+        if not I.path.decide(z3.And(t >= 0, t <= 255)):
+            raise PyRaise(ExcV(OverflowError, ("int too big to convert",)))
+        return SeqV("bytes", "int", items=[self_val])
     raise Unsupported(f"method {tag}")
 
 
@@ -829,6 +872,30 @@ def seq_method(I, recv, name, args, kw):
         p = seqops.to_py(seq)
         if p is not None:
             return str_method(I, p, name, args, kw)
+        if name == "startswith" and len(args) == 1 and isinstance(args[0], (str, bytes)) and len(args[0]) == 1:
+            arr, n, _ = seqops.as_array(seq)
+            return mk("bool", z3.And(to_term(n, "int") >= 1, z3.Select(arr, 0) == (ord(args[0]) if isinstance(args[0], str) else args[0][0])))
+        if name in ("strip", "lstrip", "rstrip") and getattr(I, "allow_text_conversions", False):
+            # value abstracted (see text_conversions_abstracted): some text of the same kind
+            return seqops.fresh(I.path, seq.kind, "int", seq.kind + "." + name, register=False)
+        if name in ("upper", "lower") and seq.kind == "str" and not args:
+            # symbolic text: some text u; when every character is ASCII, u has the same length and the ASCII letters mapped.
+            # Nothing is said otherwise (Unicode case mapping changes lengths and can yield ASCII letters: 'ſ'.upper() == 'S')
+            arr, n, _ = seqops.as_array(seq)
+            memo = I.path.ghost.setdefault("case_map", {})
+            mkey = (name, arr.get_id(), n.get_id() if hasattr(n, "get_id") else n)
+            if mkey in memo:
+                return memo[mkey][0]        # the same text maps to the same text (str.upper is a function)
+            u = seqops.fresh(I.path, "str", "int", "str." + name, register=False)
+            memo[mkey] = (u, arr, n)
+            ua, un, _ = seqops.as_array(u)
+            i = z3.Int(I.path.fresh_name("u"))
+            lo, hi, d = (97, 122, -32) if name == "upper" else (65, 90, 32)
+            c = z3.Select(arr, i)
+            ascii_all = z3.ForAll([i], z3.Implies(z3.And(i >= 0, i < n), c < 128))
+            mapped = z3.ForAll([i], z3.Implies(z3.And(i >= 0, i < n), z3.Select(ua, i) == z3.If(z3.And(c >= lo, c <= hi), c + d, c)))
+            I.path.assume(z3.Implies(ascii_all, z3.And(un == n, mapped)))
+            return u
         raise Unsupported(f"{seq.kind}.{name} on symbolic value")
     if name == "join":
         p = seqops.to_py(seq)
